@@ -297,7 +297,7 @@ def build_items(tier):
                                 continue
                             case = {"verb": verb, "size": size, "k": k, "backend": backend, "followup": fu,
                                     "data_conn": data_conn}
-                            bound = 1 if (fu == "again" or tier != "quick") else 0
+                            bound = (3 if tier != "quick" else 1) if (fu == "again" or tier != "quick") else 0
                             if tier == "quick" and backend == "slow" and size not in (B, 3 * B):
                                 bound = 0
                             items.append((case, bound, kinds))
@@ -322,7 +322,7 @@ def build_items(tier):
         for k in range(1, n + 2):
             case = {"verb": verb, "size": size, "k": k, "backend": "memory", "followup": "reuse", "data_conn": True,
                     "spare": True}
-            items.append((case, 1 if tier != "quick" else 0, kinds))
+            items.append((case, 3 if tier != "quick" else 0, kinds))
     return items
 
 
@@ -361,7 +361,7 @@ def run(tier, seed, t0):
               "backends": ["memory", "slow(0.125s completion latency)", "AsyncPathIO (every operation an executor job)"],
               "abort_positions": "k=0 (same segment as the verb) and after every network event k=1..N+1 counted from "
                                  "the transfer verb, with and without a data connection",
-              "followups": FOLLOWUPS + ["reuse: next transfer over a data connection made in advance, no new PASV"], "data_peer": ["reading", "connected but not reading (RETR/LIST/MLSD)"], "deviation_bound": 1, "send_window": "lock-step", "cases": len(items)}
+              "followups": FOLLOWUPS + ["reuse: next transfer over a data connection made in advance, no new PASV"], "data_peer": ["reading", "connected but not reading (RETR/LIST/MLSD)"], "deviation_bound": 1 if tier == "quick" else 3, "send_window": "lock-step", "cases": len(items)}
     return report.finish(
         PID, tier, seed, "model_checking", part, t0,
         rule="case = (verb, size, abort position, backend, follow-up); every schedule with <= bound deviations from the "
